@@ -24,6 +24,9 @@ Decided (all on normal forms, nothing on source text or positions):
                    comes out as <slot>am and <slot>pm, none stays unsplit.
   C07.hour-table   the if/elif chain that shifts an hour by -12 (am) / +12 (pm) in the time and date-time parsers, interpreted
                    per marker x hour: am 12 -> 0, 1..11 unchanged; pm 1..11 -> +12, 12 -> 12; no marker unchanged.
+  C07.compose-value  the statements that follow the date / time sub-parser calls of a composing function are interpreted with a
+                   date value that carries a time of day (and the day-part shift scenarios): the emitted values take
+                   year/month/day from the date value and hour (after the shift) / minute / second from the time.
   C07.compose      "<date> at <time>": in every date-time / date-time-range parser function that parses a time
                    sub-entity, the TIMEX it assigns is derived (dataflow) from that sub-result's own timex_str - and
                    from the date sub-result's timex_str when a date is parsed too - and format_short_time /
@@ -1642,6 +1645,157 @@ def rule_hour_table(chk, idx):
 
 
 # ---------------------------------------------------------------------------------------------------
+# rule 11: "<date> at <time>" composed, tabulated: value fields and TIMEX / value agreement
+
+COMPOSE_TIMES = ((8, 0, 0, 'T08', 'ampm'), (7, 30, 15, 'T07:30:15', 'ampm'), (19, 0, 0, 'T19', ''), (12, 0, 0, 'T12', 'ampm'),
+                 (0, 30, 0, 'T00:30', ''))
+
+
+def compose_table(idx, mod, cls, fn, ev):
+    """interpret the part of a date+time composing function that follows the two sub-parser calls, with a date value that
+    carries a time of day.  -> None when the function does not compose a date result with a time result, else a list of
+    cases {scenario, time, want_hour, timex, future, past, date_future, date_past}"""
+    import datetime as dt
+    from .c09 import Interp, Obj, Unreadable, PyRaise, _Return
+    subs = sub_results(fn)
+    if 'time' not in subs or 'date' not in subs:
+        return None
+    if not any(isinstance(n, ast.Assign) and any(isinstance(t, ast.Attribute) and t.attr == 'future_value' for t in n.targets)
+               for n in own_walk(fn)):
+        return None
+    names = subs['time'] | subs['date']
+    par = parents_of(fn)
+    last = None
+    for n in own_walk(fn):
+        if isinstance(n, (ast.Assign, ast.AnnAssign)):
+            tg = n.targets if isinstance(n, ast.Assign) else [n.target]
+            flat = [x for t in tg for x in (t.elts if isinstance(t, (ast.Tuple, ast.List)) else [t])]
+            if any(isinstance(x, ast.Name) and x.id in names for x in flat):
+                if last is None or n.lineno > last.lineno:
+                    last = n
+    block = None
+    for fld in ('body', 'orelse', 'finalbody'):
+        b = getattr(par.get(last), fld, None)
+        if isinstance(b, list) and any(x is last for x in b):
+            block = b
+    if block is None:
+        return None
+    rest = block[[i for i, x in enumerate(block) if x is last][0] + 1:]
+    mc = marker_chain(fn, ev)
+    every, roles = set(), []
+    if mc is not None:
+        cur = mc[0]
+        roles = mc[2]
+        while True:
+            every.add(id(cur))
+            if len(cur.orelse) == 1 and isinstance(cur.orelse[0], ast.If):
+                cur = cur.orelse[0]
+            else:
+                break
+    d_future, d_past = dt.datetime(2019, 6, 17, 10, 30, 45), dt.datetime(2019, 6, 10, 10, 30, 45)
+    cases = []
+    for scenario in (('none', 'pm', 'am') if mc is not None else ('none',)):
+        forced = [id(b) for b, r in roles if r == scenario]
+        for (h, mi, sec, ttimex, comment) in COMPOSE_TIMES:
+            def oracle(ifnode, expr, forced=forced):
+                if id(ifnode) in every:
+                    return id(ifnode) in forced
+                return False
+            env = {}
+            injected = set()
+            for nm in subs['date']:
+                o, v = Obj(), Obj()
+                v.attrs.update(future_value=d_future, past_value=d_past, comment='', timex='XXXX-WXX-1', success=True)
+                o.attrs.update(value=v, timex_str='XXXX-WXX-1')
+                env[nm] = o
+                injected |= {id(o), id(v)}
+            for nm in subs['time']:
+                o, v = Obj(), Obj()
+                tv = dt.datetime(2019, 6, 12, h, mi, sec)
+                v.attrs.update(future_value=tv, past_value=tv, comment=comment, timex=ttimex, success=True)
+                o.attrs.update(value=v, timex_str=ttimex)
+                env[nm] = o
+                injected |= {id(o), id(v)}
+            it = Interp(idx, oracle=oracle)
+            out = None
+            try:
+                try:
+                    it.block(rest, env, (mod, cls, fn))
+                except _Return as r:
+                    out = r.value
+            except Unreadable as e:
+                raise AnalysisError('%s.%s: the date+time composition cannot be interpreted: %s' % (cls.name, fn.name, e))
+            except PyRaise as e:
+                cases.append({'scenario': scenario, 'time': ttimex, 'raises': str(e)})
+                continue
+            objs = [out] if isinstance(out, Obj) and id(out) not in injected else \
+                [v for k, v in env.items() if isinstance(v, Obj) and id(v) not in injected]
+            objs = [o for o in objs if 'future_value' in o.attrs and 'timex' in o.attrs]
+            if len(objs) != 1:
+                raise AnalysisError('%s.%s: composed result (timex / future_value) not produced' % (cls.name, fn.name))
+            if scenario == 'pm':
+                want = h + 12 if h < 12 else h
+            elif scenario == 'am':
+                want = h - 12 if h >= 12 else h
+            else:
+                want = h
+            cases.append({'scenario': scenario, 'time': ttimex, 'want_hour': want, 'minute': mi, 'second': sec,
+                          'timex': objs[0].attrs.get('timex'), 'future': objs[0].attrs.get('future_value'),
+                          'past': objs[0].attrs.get('past_value'), 'date_future': d_future, 'date_past': d_past})
+    return cases
+
+
+def timex_time_part(timex):
+    """(hour, rest) of the last T-part of a TIMEX string, or None"""
+    m = re.search(r'T(\d{1,2})((?::\d{1,2})*)$', timex) if isinstance(timex, str) else None
+    return (int(m.group(1)), m.group(2)) if m else None
+
+
+def composing_functions(idx):
+    for c in sorted(idx.all_classes(), key=lambda k: k.qual):
+        if not (c.mod.name == PKG or c.mod.name.startswith(PKG + '.')):
+            continue
+        if parser_type_of(idx, c, lambda k: make_evalc(idx, k.mod, k)) not in ('datetime', 'datetimerange'):
+            continue
+        for name, fn in sorted(c.methods.items()):
+            if '#' not in name:
+                yield c, name, fn
+
+
+def rule_compose_value(chk, idx):
+    import datetime as dt
+    rid = 'C07.compose-value'
+    chk.rule(rid, 'the value composed from a date result and a time result, tabulated with a date value that carries a time of day: '
+                  'year/month/day come from the date value, hour (after the day-part shift) / minute / second from the time', floor=2)
+    n = 0
+    for c, name, fn in composing_functions(idx):
+        cases = compose_table(idx, c.mod, c, fn, make_evalc(idx, c.mod, c))
+        if cases is None:
+            continue
+        n += 1
+        chk.consulted(c.mod.path)
+        bad = []
+        for k in cases:
+            if 'raises' in k:
+                bad.append('%s marker, time %s: raises %s' % (k['scenario'], k['time'], k['raises']))
+                continue
+            for which in ('future', 'past'):
+                d = k['date_' + which]
+                want = dt.datetime(d.year, d.month, d.day, k['want_hour'], k['minute'], k['second'])
+                got = k[which]
+                if got != want:
+                    bad.append('%s marker, date value %s + time %s -> %s_value %s, expected %s'
+                               % (k['scenario'], d.strftime('%Y-%m-%d %H:%M:%S'), k['time'], which, got, want))
+        chk.judge(not bad, rid, c.mod.path, '%s.%s' % (c.name, name), '%d compositions interpreted; wrong: %s'
+                  % (len(cases), '; '.join(bad[:2]) if bad else 'none'),
+                  'the composed value is not <date of the date value> + <time>: %s%s' % ('; '.join(bad[:3]),
+                                                                                          ' ... (%d cases)' % len(bad) if len(bad) > 3 else ''),
+                  fn.lineno)
+    if n < 2:
+        raise AnalysisError('only %d date+time composing functions could be tabulated' % n)
+
+
+# ---------------------------------------------------------------------------------------------------
 
 def run(chk):
     chk.explanation = ('contradiction rule on the time decoders (an int decoded from an hour/minute/second group must not be '
@@ -1657,6 +1811,7 @@ def run(chk):
     rule_ampm_table(chk, idx)
     rule_ampm_split(chk, idx)
     rule_hour_table(chk, idx)
+    rule_compose_value(chk, idx)
     chk.assume('RegExpUtility.get_group / get_group_list / Match.group return the text of the named group; group names '
                'hour/min/sec denote digit groups whose language contains 0 and 00 (the property quantifies over 00:00..23:59:59)')
     chk.assume('callee identity is by attribute name on DateTimeFormatUtil (to_pm, all_str_to_pm); no monkey patching')
